@@ -255,6 +255,13 @@ theorem lookup_returns_only_loaded_templates :
     PathCfg.lookupTemplatesCarryUri = true ∧ PathCfg.getTemplateReturns = true ∧ PathCfg.loadReturns = true := by
   decide
 
+open MakoModel.Generated in
+/-- **temporary_files_beside_module.** The module writer creates its temporary file in the directory of the module
+file itself (`tempfile.mkstemp(dir=os.path.dirname(outputpath))`), which `module_path_contained` places below
+`module_directory`: together with the audit of every write-open in the oracle, "generated module files are created
+only beneath module_directory" also covers the files that exist only between write and move. -/
+theorem temporary_files_beside_module : PathCfg.tempBesideModule = true := by decide
+
 /-! ## Non-vacuity and sanity: concrete instances (kernel evaluation of the model) -/
 
 /-- an accepted URI with `..`, repeated slashes and a backslash; resolves inside the root -/
